@@ -381,17 +381,26 @@ pub fn register(m: &mut HashMap<&'static str, OpFn>) {
                 0 => {
                     let s = StaticSecret::from(k);
                     v.extend_from_slice(PublicKey::from(&s).as_bytes());
-                    v.extend_from_slice(s.diffie_hellman(&their).as_bytes());
+                    let ss = s.diffie_hellman(&their);
+                    v.extend_from_slice(ss.as_bytes());
+                    v.push(ss.was_contributory() as u8);
+                    v.extend_from_slice(&ss.to_bytes());
                 }
                 1 => {
                     let s = ReusableSecret::random_from_rng(crate::ops_x::FixedRng(k.to_vec(), 0));
                     v.extend_from_slice(PublicKey::from(&s).as_bytes());
-                    v.extend_from_slice(s.diffie_hellman(&their).as_bytes());
+                    let ss = s.diffie_hellman(&their);
+                    v.extend_from_slice(ss.as_bytes());
+                    v.push(ss.was_contributory() as u8);
+                    v.extend_from_slice(&ss.to_bytes());
                 }
                 _ => {
                     let s = EphemeralSecret::random_from_rng(crate::ops_x::FixedRng(k.to_vec(), 0));
                     v.extend_from_slice(PublicKey::from(&s).as_bytes());
-                    v.extend_from_slice(s.diffie_hellman(&their).as_bytes());
+                    let ss = s.diffie_hellman(&their);
+                    v.extend_from_slice(ss.as_bytes());
+                    v.push(ss.was_contributory() as u8);
+                    v.extend_from_slice(&ss.to_bytes());
                 }
             }
             v
